@@ -201,9 +201,8 @@ def handle (j : Json) : Json :=
     (if EnumGoType p then ["EnumGoType"] else []) ++
     (if AddlShadow p then ["AddlShadow"] else []) ++
     (if QueryObjAbsent p r then ["QueryObjAbsent"] else []) ++
-    (if (schLeaves sch).any leafHasInt && (reqStrings r).any (zeroLed false) then ["NonDecimalInt"] else [])
+    []
   let unsupported := (schLeaves sch).any (unsupportedLeaf cell name r) ||
-    ((reqStrings r).any (fun s => s.contains '_')) ||
     ((schLeaves sch).any leafHasNum && (reqStrings r).any exoticNumberText)
   let kinds := (schLeaves sch).map leafKind
   let branches := if earlyAbsent cell r then [] else
